@@ -21,10 +21,10 @@ def replay(ctx):
         ns.validate(ctx, art["trace"], [art.get("stats")], "replay", art.get("how", {}), cfg=cfg,
                     inflight_sig=(cfg == ns.CFG_INFLIGHT))
     elif "args" in art:
-        a = art["args"]
-        opt = dict(zip(a[0::2], a[1::2]))
+        a = [str(x) for x in art["args"]]
+        opt = {a[i]: a[i + 1] for i in range(len(a) - 1) if a[i] in ("-seed", "-blocks", "-runs")}
         ns.e2e(ctx, int(opt.get("-seed", ctx.seed)), int(opt.get("-blocks", 48)), int(opt.get("-runs", 3)), "replay",
-               inflight="-inflight" in a)
+               inflight="-inflight" in a, crash="-crash" in a, live="-live" in a)
     else:
         raise Infra("unknown replay artefact")
     ctx.cov["evaluations"] = 1
@@ -45,8 +45,11 @@ def run(ctx):
                           label="exhaustive design model with a fork (minor versions)")
         ctx.tlc_must_hold("state", "MC_NodeStore", cfg="MC_NodeStore_as.cfg", workers=4, timeout=3000, heap="4g",
                           label="account-like + storage-like trie (root of the latter may come from the deduped space)")
-    # (MC_NodeStore_matrix.cfg - all 18 option sets - and the MC_NodeStore_teeth_*.cfg variants are documented in
-    #  MC_NodeStore.tla and not run here)
+    # must-be-violated: every deliberately broken variant of the design is caught by an invariant
+    ns.teeth(ctx, ["rootdedup", "filter", "storage", "roundup", "reopenlayout", "inflight", "resume"])
+    if not q:
+        ns.teeth(ctx, ["deepfork", "rootcache", "unaligned"])
+    # (MC_NodeStore_matrix.cfg - all 18 option sets - is documented in MC_NodeStore.tla and not run here)
     ctx.cov["exhaustive"] = True
 
     # ---- 2. the real muxdb.Trie against the model
@@ -94,6 +97,20 @@ def run(ctx):
     if not q:
         reps += ns.e2e(ctx, ctx.seed + 1000, 64, 8, "e2e-b")
 
+    # crash cuts inside every prune round (after every write and after sampled operation prefixes of the checkpoint /
+    # range-delete bulks), re-open, the SAME round again, all reads compared
+    creps = ns.e2e(ctx, ctx.seed, 48 if q else 64, 1 if q else 4, "e2e-crash", crash=True)
+    ctx.cov["crash_cuts"] = sum(r.get("crashCuts", 0) for r in creps)
+    reps += creps
+    # the REAL pruner goroutine next to the importer (scaled period / history; needs hooks/pruner-loop.patch)
+    if ns.live_hook_present(ctx):
+        lreps = ns.e2e(ctx, ctx.seed, 96, 1 if q else 3, "e2e-live", live=True)
+        ctx.cov["live_pruner"] = [r["rounds"] for r in lreps]
+        reps += lreps
+    else:
+        ctx.cov["live_pruner"] = "skipped: hooks/pruner-loop.patch (VerifSetLoopScale) is not in " + ctx.repo
+        ctx.log("live pruner step skipped: loop-scaling hook not in the tree")
+
     # ---- reads while a prune round is running (Checkpoint done, DeleteHist not yet): design-level finding
     # (deterministic: fixed histories, independent of VERIF_SEED; only a successful-but-different read of a block inside
     #  [base, target) during the round carries the in-flight signature, anything else is reported under its own)
@@ -129,8 +146,13 @@ def run(ctx):
         ctx.sample({"e2e": r["cfg"], "blocks": r["blocks"], "side_blocks": r["sideBlocks"], "rounds": r["rounds"],
                     "reads": r["reads"], "pruned_reads_failed": r["prunedReadsFailed"]}, limit=8)
     ctx.assumptions += [
-        "hash function is an injective oracle; the canonical root is checked against a trie built from scratch by the same hasher",
-        "values are >= 32 bytes so that every full node is stored standalone (Hashed == TRUE in NodeStore.tla)",
+        "hash function (blake2b) is an injective oracle; the canonical root is recomputed by a reference hasher independent "
+        "of package trie (RLP + hex-prefix + blake2b over the canonical shape, shared with C06)",
+        "values are 26..33 bytes: leaf encodings straddle the 32-byte embed-or-hash threshold, every full node is still "
+        "hashed and stored standalone (Hashed == TRUE in NodeStore.tla)",
+        "a crash inside a prune round is followed by the same round again; a round whose crash hit after the delete removed "
+        "the roots of block target-1 cannot be re-run (checkpoint error, reads unaffected): recorded as an observation "
+        "(crash_resume_errors, NodeStore!Resumable), not as a violation of this property",
         "the block target-1 is on the chain every block >= target descends from, and neither the root cache nor a block "
         "under construction is below the target (what awaitUntilPrunable + MaxStateHistory give in thor); each of these "
         "assumptions is shown necessary by a MC_NodeStore_teeth_*.cfg variant",
